@@ -565,6 +565,13 @@ def expand_bitflags(repo, d, log):
     #[verifier::external_body] pub fn union(self, other: Self) -> (r: Self) ensures r.bits == self.bits | other.bits {{ Self {{ bits: self.bits | other.bits }} }}
     #[verifier::external_body] pub fn insert(&mut self, other: Self) ensures final(self).bits == old(self).bits | other.bits {{ self.bits |= other.bits; }}
 }}""")
+    out.append(f"""impl core::ops::BitOr for {name} {{
+    type Output = {name};
+    #[verifier::external_body] fn bitor(self, other: Self) -> (r: Self) ensures r.bits == self.bits | other.bits {{ Self {{ bits: self.bits | other.bits }} }}
+}}
+impl core::ops::BitOrAssign for {name} {{
+    #[verifier::external_body] fn bitor_assign(&mut self, other: Self) ensures final(self).bits == old(self).bits | other.bits {{ self.bits |= other.bits; }}
+}}""")
     text = "\n".join(out) + "\n"
     line = src.count("\n", 0, m.start()) + 1
     log.append({"rule": "X8:bitflags", "file": rel, "item": name, "line": line,
